@@ -1,33 +1,59 @@
 """C03 -- generated equality is exact-class, field-wise ==.
 
-Case = the Lean `Attrs.C03.Case` (fields with their eq/cmp arguments and the scripted outcome of every
-comparison, kind of right operand) plus a harness-only `cfg` (api, slots, frozen, class-level eq/order
-arguments, how fields are split over an attrs base, kind of subclass / foreign operand) which the
-model ignores -- that the verdict is the same for every `cfg` is part of what is checked.
+Case = the Lean `Attrs.C03.Case`:
+  * fields with their eq/cmp/hash arguments and the scripted outcome of every comparison,
+  * kind of right operand,
+  * class facts: class-level eq argument, effective auto_detect, what the body of C, every ancestor, the
+    subclass and the foreign operand's class define under `__eq__` / `__ne__`,
+  * the history of the operands before they are compared (hash() taken and cached, fields re-assigned),
+plus a harness-only `cfg` that says how those facts are realised (api, slots, frozen, class-level
+eq/order/cmp spelling, inherited split, builtin / mixin / exception root, attrs base with generated or
+hand-written methods, kind of subclass / foreign operand, hash= / unsafe_hash= / cache_hash=, payloads of
+builtin bases, decoy classes) and per-field harness-only keys (`neRaw`, `neKeyed`: what `!=` between the two
+values answers -- independent of `==`).  `_finish` derives the facts from `cfg`; the model reads only facts.
 """
 from __future__ import annotations
 
 import itertools
+import json
 
 import attr
 import attrs
 
 ID = "C03"
-RULE = ("cases = (per-field cmp/eq argument x scripted outcome of raw and keyed comparison x same-object flag) x "
-        "right-operand kind x class configuration (api, slots, frozen, class-level eq/order/cmp, inherited split, "
-        "subclass/foreign kind); exhaustive over the model dimensions for <=1 field (quick) / <=2 fields (thorough), "
-        "random above; non-trivial = at least one eq-participating field; distinct = distinct JSON case")
+RULE = ("cases = (per-field cmp/eq argument x hash argument x scripted outcome of raw and keyed == (and, independently, "
+        "of !=) x same-object flag x equal/different hash codes) x right-operand kind x class facts (class-level "
+        "eq/cmp, auto_detect, hand-written __eq__/__ne__ in the class body, ancestors: attrs base with generated or "
+        "hand-written methods over object / list / dict / str / float / int / tuple / exception / plain mixin with "
+        "__eq__, __ne__ or both; subclass and foreign operand with or without methods of their own) x hashing "
+        "history (cache_hash, hash(x) / hash(y) taken before, fields re-assigned after hashing) x class configuration "
+        "(api incl. make_class, slots, frozen, order, inherited split, hash=/unsafe_hash=); exhaustive over the "
+        "per-field model dimensions for <=1 field (quick) / <=2 fields (thorough) under random class facts and "
+        "histories, random above; only classes for which attrs generates equality are emitted; non-trivial = at "
+        "least one eq-participating field; distinct = distinct JSON case")
 ASSUMPTIONS = [
-    "CPython's ==/!= dispatch (left method, reflected method, identity fallback) is modelled as a 3-line function and diff-tested here",
-    "scripted comparison objects stand for arbitrary values: each == outcome is an input of the case",
+    "CPython's attribute lookup of __eq__/__ne__ along the MRO, object.__ne__ (derives from the resolved __eq__) and the "
+    "==/!= dispatch (subclass-first, left, reflected, identity) are modelled as small functions and diff-tested here",
+    "scripted comparison objects stand for arbitrary values: each == outcome is an input of the case; their __ne__ is "
+    "scripted independently and their __hash__ is scripted too (equal or different codes whatever == says)",
+    "class facts in the case are derived from cfg by the harness (_finish) and realised by build(); hand-written and "
+    "builtin methods are represented by the outcome they give for the operands of the case (payloads chosen accordingly)",
+    "the hashing history and the hash-related arguments are varied by the harness; model and spec never read them "
+    "(theorem C03_history_irrelevant), i.e. the expected results are those of fresh operands",
+    "classes for which attrs does not generate equality (eq=False, auto_detect with own methods, auto_exc exceptions) "
+    "are outside the property and not generated",
 ]
 EXHAUSTIVE = {"quick": False, "thorough": False}
-BUDGET_S = {"quick": 40, "thorough": 420}
+BUDGET_S = {"quick": 35, "thorough": 420}
 
 OUTCOMES = ["T", "F", "truthy", "falsy"]
 EQARGS = [("unset", "unset"), ("unset", "t"), ("unset", "f"), ("unset", "key"), ("t", "unset"), ("f", "unset"), ("key", "unset")]
 RHS = ["same", "identical", "sub", "super", "foreign"]
 NAMES = ["a", "b", "c", "d"]
+BUILTIN_ROOTS = {"list": list, "dict": dict, "str": str, "float": float, "int": int, "tuple": tuple}
+PAYLOADS = {"list": ([1], [2]), "dict": ({1: 1}, {2: 2}), "str": ("p", "q"), "float": (1.5, 2.5), "int": (1, 2),
+            "tuple": ((1,), (2,))}
+NEW_WITH_PAYLOAD = ("str", "float", "int", "tuple")
 
 
 class Truthy:
@@ -46,28 +72,40 @@ LOG: list = []
 
 
 class K:
-    """keyed value"""
-    __hash__ = None
+    """keyed value: == and != answer independently scripted outcomes; hash code scripted"""
 
-    def __init__(self, name, keyed):
-        self.name, self.keyed = name, keyed
+    def __init__(self, name, keyed, ne, h):
+        self.name, self.keyed, self.ne, self.h = name, keyed, ne, h
 
     def __eq__(self, other):
         LOG.append(self.name + ":key")
         return MK[self.keyed]
 
+    def __ne__(self, other):
+        LOG.append(self.name + ":key!=")
+        return MK[self.ne]
+
+    def __hash__(self):
+        return self.h
+
 
 class S:
     """scripted raw value"""
-    __hash__ = None
 
-    def __init__(self, name, raw, keyed):
-        self.name, self.raw = name, raw
-        self.k = K(name, keyed)
+    def __init__(self, name, raw, keyed, ne_raw="T", ne_keyed="T", h=0):
+        self.name, self.raw, self.ne, self.h = name, raw, ne_raw, h
+        self.k = K(name, keyed, ne_keyed, h + 7)
 
     def __eq__(self, other):
         LOG.append(self.name)
         return MK[self.raw]
+
+    def __ne__(self, other):
+        LOG.append(self.name + "!=")
+        return MK[self.ne]
+
+    def __hash__(self):
+        return self.h
 
 
 def key_fn(v):
@@ -111,103 +149,372 @@ def decoy_key(v):
 _ARG = {"t": True, "f": False, "key": key_fn}
 _ARG_DECOY = {"t": True, "f": False, "key": decoy_key}
 _CLASS_CACHE: dict = {}
+_BUILDS = [0]
 
 
-def _field_kwargs(f, api, arg=None):
+def _field_kwargs(f, arg=None):
     arg = arg or _ARG
     kw = {}
     if f["cmp"] != "unset":
         kw["cmp"] = arg[f["cmp"]]
     if f["eq"] != "unset":
         kw["eq"] = arg[f["eq"]]
+    h = f.get("hash", "unset")
+    if h != "unset":
+        kw["hash"] = h == "t"
     return kw
+
+
+def _scripted_methods(layer, who):
+    """class-body entries for a hand-written `__eq__` / `__ne__` answering fixed outcomes"""
+    ns = {}
+    if layer and layer.get("eq"):
+        o = layer["eq"]
+
+        def __eq__(self, other, _o=o, _who=who):
+            LOG.append(_who + ":eq")
+            return MK[_o]
+        ns["__eq__"] = __eq__
+    if layer and layer.get("ne"):
+        o2 = layer["ne"]
+
+        def __ne__(self, other, _o=o2, _who=who):
+            LOG.append(_who + ":ne")
+            return MK[_o]
+        ns["__ne__"] = __ne__
+    return ns
+
+
+# ------------------------------------------------------------------------------------------ class facts
+
+def _slot(o):
+    return {"user": {"o": o}} if o else "absent"
+
+
+def _layer(d):
+    d = d or {}
+    return {"eq": _slot(d.get("eq")), "ne": _slot(d.get("ne"))}
+
+
+GEN = {"eq": "generated", "ne": "generated"}
+NONE = {"eq": "absent", "ne": "absent"}
+
+
+def eff_auto_detect(cfg):
+    ad = cfg.get("auto_detect")
+    if ad is None:
+        return cfg.get("api", "attr.s") in ("define", "frozen", "mutable")
+    return ad
+
+
+def eff_frozen(cfg):
+    return bool(cfg.get("frozen")) or cfg.get("api") == "frozen"
+
+
+def _own_present(cfg):
+    o = cfg.get("own") or {}
+    return bool(o.get("eq") or o.get("ne"))
+
+
+def generates(cfg):
+    ce = cfg.get("cls_eq", "unset")
+    if ce in ("t", "cmp_t") or cfg.get("api") == "make_class":     # make_class resolves eq=None to True itself
+        return True
+    return not (eff_auto_detect(cfg) and _own_present(cfg))
+
+
+def hash_generated(cfg):
+    """mirror of the hash decision in attrs() for the classes generated here (eq is generated)"""
+    if cfg.get("hash_mode", "none") != "none":
+        return True
+    if eff_auto_detect(cfg) and (cfg.get("own") or {}).get("eq"):
+        return False        # CPython put `__hash__ = None` next to the hand-written __eq__
+    return eff_frozen(cfg)
+
+
+def valid(case):
+    cfg = case["cfg"]
+    if not generates(cfg):
+        return False
+    if cfg.get("cls_eq") == "cmp_t" and cfg.get("api") != "attr.s":
+        return False
+    if cfg.get("cls_eq") == "cmp_t" and cfg.get("cls_order", "unset") != "unset":
+        return False
+    if cfg.get("base_mode", "gen") == "none" and cfg.get("split", 0):
+        return False
+    if cfg.get("base_mode") == "user" and not ((cfg.get("base_own") or {}).get("eq") or (cfg.get("base_own") or {}).get("ne")):
+        return False
+    if cfg.get("root") == "mixin" and not ((cfg.get("mixin") or {}).get("eq") or (cfg.get("mixin") or {}).get("ne")):
+        return False
+    if cfg.get("root") in ("int", "tuple") and cfg.get("slots") is not False:
+        return False
+    if cfg.get("cache_hash") and not hash_generated(cfg):
+        return False
+    h = case["hist"]
+    if (h["hashedX"] or h["hashedY"]) and not hash_generated(cfg):
+        return False
+    if (h["reassignedX"] or h["reassignedY"]) and eff_frozen(cfg):
+        return False
+    if h["reassignedY"] and case["rhs"] not in ("same", "sub"):
+        return False
+    if h["hashedY"] and case["rhs"] != "same":
+        return False
+    names = [f["name"] for f in case["fields"]]
+    if any(n not in names for n in h["reassignedX"] + h["reassignedY"]):
+        return False
+    for f in case["fields"]:
+        if f["cmp"] != "unset" and f["eq"] != "unset":
+            return False
+        if f["sameObj"] and f["hashDiffers"]:
+            return False
+    return True
+
+
+def _finish(case):
+    """derive the class facts the Lean model reads from cfg"""
+    cfg = case["cfg"]
+    anc = []
+    bm = cfg.get("base_mode", "gen")
+    if bm == "gen":
+        anc.append(GEN)
+    elif bm == "user":
+        anc.append(_layer(cfg.get("base_own")))
+    root = cfg.get("root", "object")
+    if root == "mixin":
+        anc.append(_layer(cfg.get("mixin")))
+    elif root in BUILTIN_ROOTS:
+        pe = bool(cfg.get("payload_eq"))
+        anc.append({"eq": _slot("T" if pe else "F"), "ne": _slot("F" if pe else "T")})
+    sk = cfg.get("sub_kind", "plain")
+    sub = GEN if sk == "attrs" else _layer(cfg.get("sub_own")) if sk == "plain_user" else NONE
+    fk = cfg.get("foreign_kind", "twin")
+    foreign = GEN if fk == "twin" else _layer(cfg.get("foreign_own")) if fk == "user" else NONE
+    out = dict(case)
+    out.update({
+        "clsEq": "t" if cfg.get("cls_eq", "unset") in ("t", "cmp_t") or cfg.get("api") == "make_class" else "unset",
+        "autoDetect": eff_auto_detect(cfg),
+        "own": _layer(cfg.get("own")),
+        "ancestors": anc,
+        "subLayer": sub,
+        "foreignLayer": foreign,
+        "hist": dict(case["hist"], cacheHash=bool(cfg.get("cache_hash"))),
+    })
+    return out
+
+
+# ------------------------------------------------------------------------------------------ building
+
+def _cls_kwargs(cfg):
+    api = cfg.get("api", "attr.s")
+    kw = {}
+    if cfg.get("slots") is not None:
+        kw["slots"] = cfg["slots"]
+    if cfg.get("frozen") and api != "frozen":
+        kw["frozen"] = True
+    ce = cfg.get("cls_eq", "unset")
+    if ce == "t":
+        kw["eq"] = True
+    elif ce == "cmp_t":
+        kw["cmp"] = True
+    co = cfg.get("cls_order", "unset")
+    if co != "unset" and "cmp" not in kw:
+        kw["order"] = co == "t"
+    if cfg.get("auto_detect") is not None:
+        kw["auto_detect"] = cfg["auto_detect"]
+    hm = cfg.get("hash_mode", "none")
+    if hm == "unsafe_hash":
+        kw["unsafe_hash"] = True
+    elif hm == "hash":
+        kw["hash"] = True
+    if cfg.get("cache_hash"):
+        kw["cache_hash"] = True
+    if cfg.get("root") == "exc" and api in ("define", "frozen", "mutable"):
+        kw["auto_exc"] = False
+    return kw
+
+
+def _deco(api):
+    return {"attr.s": attr.s, "make_class": attr.s, "define": attrs.define, "frozen": attrs.frozen,
+            "mutable": attrs.mutable}[api]
 
 
 def build(case):
     cfg = case.get("cfg", {})
-    key = (tuple((f["name"], f["cmp"], f["eq"]) for f in case["fields"]), tuple(sorted(cfg.items())))
+    key = (tuple((f["name"], f["cmp"], f["eq"], f.get("hash", "unset")) for f in case["fields"]),
+           json.dumps(cfg, sort_keys=True))
     got = _CLASS_CACHE.get(key)
     if got is not None:
         return got
+    _BUILDS[0] += 1
     if len(_CLASS_CACHE) > 3000:
         _CLASS_CACHE.clear()
+    if _BUILDS[0] % 150 == 0:
         import linecache
         for k in [k for k in linecache.cache if k.startswith("<attrs generated")]:
             del linecache.cache[k]
     api = cfg.get("api", "attr.s")
     split = min(cfg.get("split", 0), len(case["fields"]))
-    # `field()` of the next-gen API has no cmp=; fall back to attr.ib inside define, which is allowed
-    def mk(f):
-        return attr.ib(**_field_kwargs(f, api))
-
-    cls_kw = {}
-    if cfg.get("slots") is not None:
-        cls_kw["slots"] = cfg["slots"]
-    if cfg.get("frozen"):
-        cls_kw["frozen"] = True
-    ce = cfg.get("cls_eq", "unset")
-    if ce == "t":
-        cls_kw["eq"] = True
-    elif ce == "cmp_t" and api == "attr.s":
-        cls_kw["cmp"] = True
-    co = cfg.get("cls_order", "unset")
-    if co != "unset" and "cmp" not in cls_kw:
-        cls_kw["order"] = co == "t"
-    deco = {"attr.s": attr.s, "define": attrs.define, "frozen": attrs.frozen, "mutable": attrs.mutable}[api]
-    if api == "frozen":
-        cls_kw.pop("frozen", None)
-
+    deco = _deco(api)
+    cls_kw = _cls_kwargs(cfg)
     base_fields = case["fields"][:split]
     own_fields = case["fields"][split:]
+
+    def mk(f):
+        # `field()` of the next-gen API has no cmp=; attr.ib inside define is allowed
+        return attr.ib(**_field_kwargs(f))
+
     # decoy classes of the same layout (names, keyed/unkeyed pattern, options, qualnames) with a different key
     # function are defined first: whatever attrs memoises per layout must not leak into the real classes
-    def mkd(f):
-        return attr.ib(**_field_kwargs(f, api, _ARG_DECOY))
-    try:
-        DBase = deco(**cls_kw)(type("Base", (object,), {f["name"]: mkd(f) for f in base_fields}))
-        deco(**cls_kw)(type("C", (DBase,), {f["name"]: mkd(f) for f in own_fields}))
-        deco(**cls_kw)(type("C", (object,), {f["name"]: mkd(f) for f in case["fields"]}))
-    except Exception:  # noqa: BLE001
-        pass
-    Base = deco(**cls_kw)(type("Base", (object,), {f["name"]: mk(f) for f in base_fields}))
-    C = deco(**cls_kw)(type("C", (Base,), {f["name"]: mk(f) for f in own_fields}))
-    if cfg.get("sub_kind", "plain") == "plain":
-        D = type("D", (C,), {})
+    if cfg.get("decoy"):
+        def mkd(f):
+            return attr.ib(**_field_kwargs(f, _ARG_DECOY))
+        try:
+            DBase = deco(**cls_kw)(type("Base", (object,), {f["name"]: mkd(f) for f in base_fields}))
+            deco(**cls_kw)(type("C", (DBase,), {f["name"]: mkd(f) for f in own_fields}))
+            deco(**cls_kw)(type("C", (object,), {f["name"]: mkd(f) for f in case["fields"]}))
+        except Exception:  # noqa: BLE001
+            pass
+
+    # ---- the non-attrs root of the hierarchy
+    root = cfg.get("root", "object")
+    if root == "mixin":
+        Root = type("Mixin", (object,), _scripted_methods(cfg.get("mixin"), "MIXIN"))
+    elif root == "exc":
+        Root = Exception
+    elif root in BUILTIN_ROOTS:
+        Root = BUILTIN_ROOTS[root]
     else:
-        D = deco(**cls_kw)(type("D", (C,), {}))
-    F = deco(**cls_kw)(type("C", (object,), {f["name"]: mk(f) for f in case["fields"]}))  # unrelated twin
-    res = (Base, C, D, F, [f["name"] for f in base_fields])
+        Root = object
+    # ---- the attrs base
+    bm = cfg.get("base_mode", "gen")
+    common = {k: v for k, v in cls_kw.items() if k in ("slots", "frozen", "auto_exc")}
+    bdeco = attr.s if api == "make_class" else deco
+    if bm == "gen":
+        Base = bdeco(**cls_kw)(type("Base", (Root,), {f["name"]: mk(f) for f in base_fields}))
+    elif bm == "user":
+        body = {f["name"]: mk(f) for f in base_fields}
+        body.update(_scripted_methods(cfg.get("base_own"), "BASE"))
+        keep = {"auto_detect": True} if cfg.get("base_keep") == "auto_detect" else {"eq": False}
+        Base = bdeco(**common, **keep)(type("Base", (Root,), body))
+    else:
+        Base = Root
+    # ---- C
+    if api == "make_class":
+        C = attr.make_class("C", {f["name"]: mk(f) for f in own_fields}, bases=(Base,),
+                            class_body=_scripted_methods(cfg.get("own"), "OWN") or None, **cls_kw)
+    else:
+        body = {f["name"]: mk(f) for f in own_fields}
+        body.update(_scripted_methods(cfg.get("own"), "OWN"))
+        C = deco(**cls_kw)(type("C", (Base,), body))
+    # ---- subclass
+    sk = cfg.get("sub_kind", "plain")
+    D = F = None
+    if case["rhs"] == "sub":
+        if sk == "plain":
+            D = type("D", (C,), {})
+        elif sk == "plain_user":
+            D = type("D", (C,), _scripted_methods(cfg.get("sub_own"), "SUB"))
+        elif sk == "attrs":
+            D = bdeco(**cls_kw)(type("D", (C,), {}))
+        else:   # attrs subclass that does not generate equality: inherits C's
+            D = bdeco(**common, eq=False)(type("D", (C,), {}))
+    # ---- foreign
+    if case["rhs"] == "foreign":
+        fk = cfg.get("foreign_kind", "twin")
+        if fk == "twin":       # unrelated twin with the same name and fields
+            F = bdeco(**cls_kw)(type("C", (object,), {f["name"]: mk(f) for f in case["fields"]}))
+        elif fk == "user":
+            F = type("Foreign", (object,), _scripted_methods(cfg.get("foreign_own"), "FOREIGN"))
+        else:
+            F = object
+    res = (Root, Base, C, D, F, [f["name"] for f in base_fields])
     _CLASS_CACHE[key] = res
     return res
 
 
+def _make(cls, root, payload, vals):
+    if root in BUILTIN_ROOTS:
+        inst = cls.__new__(cls, payload) if root in NEW_WITH_PAYLOAD else cls.__new__(cls)
+        if root == "list":
+            list.extend(inst, payload)
+        elif root == "dict":
+            dict.update(inst, payload)
+        inst.__init__(**vals)
+        return inst
+    return cls(**vals)
+
+
 def observe(case):
-    Base, C, D, F, base_names = build(case)
-    fs = case["fields"]
-    xv = {f["name"]: S(f["name"], f["raw"], f["keyed"]) for f in fs}
-    yv = {f["name"]: (xv[f["name"]] if f["sameObj"] else S(f["name"], f["raw"], f["keyed"])) for f in fs}
-    x = C(**xv)
-    rhs = case["rhs"]
     cfg = case.get("cfg", {})
+    Root, Base, C, D, F, base_names = build(case)
+    fs = case["fields"]
+    hist = case.get("hist") or {}
+    root = cfg.get("root", "object")
+    px, py = PAYLOADS.get(root, (None, None))
+    if cfg.get("payload_eq"):
+        py = px
+    xv, yv = {}, {}
+    for i, f in enumerate(fs):
+        n = f["name"]
+        xv[n] = S(n, f["raw"], f["keyed"], f.get("neRaw", "T"), f.get("neKeyed", "T"), 1000 + 16 * i)
+        if f["sameObj"]:
+            yv[n] = xv[n]
+        else:
+            yv[n] = S(n, f["raw"], f["keyed"], f.get("neRaw", "T"), f.get("neKeyed", "T"),
+                      (2000 if f.get("hashDiffers") else 1000) + 16 * i)
+    # values held before a re-assignment: never to be compared, hash codes of their own
+    x0, y0 = dict(xv), dict(yv)
+    for i, n in enumerate(hist.get("reassignedX", [])):
+        x0[n] = S(n + ":stale", "F", "F", "T", "T", 3000 + 16 * i)
+    for i, n in enumerate(hist.get("reassignedY", [])):
+        y0[n] = S(n + ":stale", "F", "F", "T", "T", 4000 + 16 * i)
+    x = _make(C, root, px, x0)
+    rhs = case["rhs"]
     if rhs == "same":
-        y = C(**yv)
+        y = _make(C, root, py, y0)
     elif rhs == "identical":
         y = x
     elif rhs == "sub":
-        y = D(**yv)
+        y = _make(D, root, py, y0)
     elif rhs == "super":
-        y = Base(**{n: yv[n] for n in base_names})
+        if Base is Root:      # no attrs base: an instance of the root itself
+            y = Root(py) if root in BUILTIN_ROOTS else Root()
+        else:
+            y = _make(Base, root, py, {n: yv[n] for n in base_names})
     else:
-        y = F(**yv) if cfg.get("foreign_kind", "twin") == "twin" else object()
+        y = _make(F, "object", None, yv) if cfg.get("foreign_kind", "twin") == "twin" else F()
+    # ---- history
+    if hist.get("hashedX"):
+        try:
+            hash(x)
+        except Exception:  # noqa: BLE001 -- hashing is not this property's business
+            pass
+    if hist.get("hashedY") and rhs == "same":
+        try:
+            hash(y)
+        except Exception:  # noqa: BLE001
+            pass
+    try:
+        for n in hist.get("reassignedX", []):
+            setattr(x, n, xv[n])
+        if rhs in ("same", "sub"):
+            for n in hist.get("reassignedY", []):
+                setattr(y, n, yv[n])
+    except Exception:  # noqa: BLE001 -- stale values stay: they are compared and show up in the trace
+        pass
     del LOG[:]
     eq_direct = call(lambda: C.__eq__(x, y))
     trace = list(LOG)
+    del LOG[:]
+    ne_direct = call(lambda: C.__ne__(x, y))
+    ne_trace = list(LOG)
     obs = {
         "eqDirect": eq_direct,
-        "neDirect": call(lambda: C.__ne__(x, y)),
+        "neDirect": ne_direct,
         "eqOp": call(lambda: x == y),
         "neOp": call(lambda: x != y),
         "trace": trace,
+        "neTrace": ne_trace,
     }
     del LOG[:]
     return obs
@@ -223,6 +530,8 @@ def nontrivial(case, model):
 
 def dist(case, obs):
     cfg = case.get("cfg", {})
+    h = case.get("hist") or {}
+    own = cfg.get("own") or {}
     return {
         "n_fields": len(case["fields"]),
         "rhs": case["rhs"],
@@ -230,21 +539,125 @@ def dist(case, obs):
         "slots": cfg.get("slots"),
         "eqDirect": obs.get("eqDirect") if isinstance(obs, dict) else "?",
         "keys": sum(1 for f in case["fields"] if "key" in (f["cmp"], f["eq"])),
+        "root": cfg.get("root"),
+        "base_mode": cfg.get("base_mode"),
+        "own_methods": "+".join(k for k in ("eq", "ne") if own.get(k)) or "-",
+        "hashing": f"{cfg.get('hash_mode')}/{'cache' if cfg.get('cache_hash') else 'nocache'}",
+        "history": f"hx={int(bool(h.get('hashedX')))} hy={int(bool(h.get('hashedY')))} "
+                   f"re={int(bool(h.get('reassignedX') or h.get('reassignedY')))}",
+        "sub_kind": cfg.get("sub_kind") if case["rhs"] == "sub" else "-",
+        "foreign_kind": cfg.get("foreign_kind") if case["rhs"] == "foreign" else "-",
+        "hash_arg": "".join(sorted({f.get("hash", "unset")[0] for f in case["fields"]})),
     }
+
+
+# ------------------------------------------------------------------------------------------ generation
+
+def _rand_layer(rng, nonempty=True):
+    while True:
+        d = {"eq": rng.choice([None, None] + OUTCOMES), "ne": rng.choice([None, None] + OUTCOMES)}
+        if not nonempty or d["eq"] or d["ne"]:
+            return d
 
 
 def _rand_cfg(rng):
-    api = rng.choice(["attr.s", "attr.s", "define", "frozen", "mutable"])
-    return {
+    api = rng.choice(["attr.s", "attr.s", "attr.s", "define", "define", "frozen", "mutable", "make_class"])
+    cfg = {
         "api": api,
         "slots": rng.choice([None, True, False]),
-        "frozen": rng.random() < 0.3,
-        "cls_eq": rng.choice(["unset", "t", "cmp_t"]),
-        "cls_order": rng.choice(["unset", "f", "t"]),
+        "frozen": rng.random() < 0.25,
+        "cls_eq": rng.choice(["unset", "unset", "t", "cmp_t"]),
+        "cls_order": rng.choice(["unset", "unset", "f", "t"]),
+        "auto_detect": rng.choice([None, None, None, True, False]),
+        "own": None,
         "split": rng.choice([0, 0, 1, 2]),
-        "sub_kind": rng.choice(["plain", "attrs"]),
-        "foreign_kind": rng.choice(["twin", "object"]),
+        "root": "object",
+        "mixin": None,
+        "base_mode": rng.choice(["gen", "gen", "gen", "none", "user"]),
+        "base_own": None,
+        "base_keep": rng.choice(["eq_false", "auto_detect"]),
+        "payload_eq": rng.random() < 0.5,
+        "sub_kind": rng.choice(["plain", "plain", "attrs", "attrs_noeq", "plain_user"]),
+        "sub_own": None,
+        "foreign_kind": rng.choice(["twin", "object", "user"]),
+        "foreign_own": None,
+        "hash_mode": "none",
+        "cache_hash": False,
+        "decoy": rng.random() < 0.2,
     }
+    if api != "attr.s" and cfg["cls_eq"] == "cmp_t":
+        cfg["cls_eq"] = "t"
+    if cfg["cls_eq"] == "cmp_t":
+        cfg["cls_order"] = "unset"
+    # --- where other __eq__/__ne__ come from
+    r = rng.random()
+    if r < 0.30:
+        cfg["root"] = rng.choice(list(BUILTIN_ROOTS))
+    elif r < 0.50:
+        cfg["root"] = "mixin"
+        cfg["mixin"] = _rand_layer(rng)
+    elif r < 0.55:
+        cfg["root"] = "exc"
+    if cfg["root"] in ("int", "tuple"):
+        cfg["slots"] = False
+    if cfg["base_mode"] == "user":
+        cfg["base_own"] = _rand_layer(rng)
+    if cfg["base_mode"] == "none":
+        cfg["split"] = 0
+    if cfg["sub_kind"] == "plain_user":
+        cfg["sub_own"] = _rand_layer(rng)
+    if cfg["foreign_kind"] == "user":
+        cfg["foreign_own"] = _rand_layer(rng)
+    if rng.random() < 0.25:
+        cfg["own"] = _rand_layer(rng)
+        if not generates(cfg):      # keep it a class for which equality IS generated
+            if rng.random() < 0.5:
+                cfg["cls_eq"] = "t"
+            else:
+                cfg["auto_detect"] = False
+    # --- hashing
+    r = rng.random()
+    if r < 0.45:
+        cfg["hash_mode"] = rng.choice(["unsafe_hash", "unsafe_hash", "hash"])
+    if hash_generated(cfg) and rng.random() < 0.6:
+        cfg["cache_hash"] = True
+    return cfg
+
+
+def _rand_hist(rng, cfg, fields, rhs):
+    h = {"hashedX": False, "hashedY": False, "reassignedX": [], "reassignedY": []}
+    if hash_generated(cfg):
+        p = 0.75 if cfg.get("cache_hash") else 0.3
+        h["hashedX"] = rng.random() < p
+        h["hashedY"] = rhs == "same" and rng.random() < p
+    if not eff_frozen(cfg) and fields and rng.random() < 0.35:
+        names = [f["name"] for f in fields]
+        side = rng.choice(["x", "y", "xy"])
+        if "x" in side:
+            h["reassignedX"] = sorted(rng.sample(names, rng.randint(1, len(names))))
+        if "y" in side and rhs in ("same", "sub"):
+            h["reassignedY"] = sorted(rng.sample(names, rng.randint(1, len(names))))
+    return h
+
+
+def _dress(rng, f):
+    """harness-side per-field extras: hash argument, hash codes, what != answers"""
+    f = dict(f)
+    f["hash"] = rng.choice(["unset", "unset", "t", "f"])
+    f["hashDiffers"] = (not f["sameObj"]) and rng.random() < 0.4
+    f["neRaw"] = rng.choice(OUTCOMES)
+    f["neKeyed"] = rng.choice(OUTCOMES)
+    return f
+
+
+def _case(rng, fields, rhs):
+    for _ in range(50):
+        cfg = _rand_cfg(rng)
+        fs = [_dress(rng, f) for f in fields]
+        c = {"fields": fs, "rhs": rhs, "cfg": cfg, "hist": _rand_hist(rng, cfg, fs, rhs)}
+        if valid(c):
+            return _finish(c)
+    raise RuntimeError("C03 generator: no valid configuration found")
 
 
 def _field_space(reduced):
@@ -259,60 +672,95 @@ def _field_space(reduced):
 
 
 def gen_cases(tier, rng):
-    # exhaustive block
+    # exhaustive block over the per-field model dimensions
     kmax = 1 if tier == "quick" else 2
-    yield {"fields": [], "rhs": "same", "cfg": _rand_cfg(rng)}
+    yield _case(rng, [], "same")
     for rhs in RHS:
-        yield {"fields": [], "rhs": rhs, "cfg": _rand_cfg(rng)}
+        yield _case(rng, [], rhs)
     for k in range(1, kmax + 1):
         space = list(_field_space(reduced=(k > 1)))
         for combo in itertools.product(space, repeat=k):
             for rhs in RHS:
-                fields = [dict(f, name=NAMES[i]) for i, f in enumerate(combo)]
-                yield {"fields": fields, "rhs": rhs, "cfg": _rand_cfg(rng)}
-    # random block
-    n = 7000 if tier == "quick" else 400000
+                yield _case(rng, [dict(f, name=NAMES[i]) for i, f in enumerate(combo)], rhs)
+    # random block (the time budget ends it in the quick tier)
+    n = 60000 if tier == "quick" else 400000
     full = list(_field_space(reduced=False))
     for _ in range(n):
-        k = rng.choice([2, 3, 3, 4])
+        k = rng.choice([1, 2, 2, 3, 3, 4])
         fields = []
         for i in range(k):
             f = dict(rng.choice(full), name=NAMES[i])
-            # bias towards truthy outcomes so that long chains are exercised
+            # bias towards truthy outcomes so that long chains (and equal instances) are exercised
             if rng.random() < 0.6:
                 f["raw"] = rng.choice(["T", "truthy"])
                 f["keyed"] = rng.choice(["T", "truthy"])
             fields.append(f)
-        yield {"fields": fields, "rhs": rng.choice(RHS + ["same", "same"]), "cfg": _rand_cfg(rng)}
+        yield _case(rng, fields, rng.choice(RHS + ["same", "same"]))
+
+
+BASE_CFG = {"api": "attr.s", "slots": None, "frozen": False, "cls_eq": "unset", "cls_order": "unset",
+            "auto_detect": None, "own": None, "split": 0, "root": "object", "mixin": None, "base_mode": "none",
+            "base_own": None, "base_keep": "eq_false", "payload_eq": False, "sub_kind": "plain", "sub_own": None,
+            "foreign_kind": "object", "foreign_own": None, "hash_mode": "none", "cache_hash": False, "decoy": False}
+BASE_HIST = {"hashedX": False, "hashedY": False, "reassignedX": [], "reassignedY": []}
+
+
+def _strip(case):
+    return {"fields": case["fields"], "rhs": case["rhs"], "cfg": dict(case.get("cfg", {})),
+            "hist": {k: case.get("hist", {}).get(k, v) for k, v in BASE_HIST.items()}}
+
+
+def _emit(c):
+    if valid(c):
+        yield _finish(c)
 
 
 def shrink(case):
-    fs = case["fields"]
+    base = _strip(case)
+    fs, cfg, hist = base["fields"], base["cfg"], base["hist"]
     for i in range(len(fs)):
-        yield dict(case, fields=fs[:i] + fs[i + 1:])
-    base = {"api": "attr.s", "slots": None, "frozen": False, "cls_eq": "unset", "cls_order": "unset",
-            "split": 0, "sub_kind": "plain", "foreign_kind": "twin"}
-    cfg = case.get("cfg", {})
-    for k, v in base.items():
+        gone = fs[i]["name"]
+        h2 = dict(hist, reassignedX=[n for n in hist["reassignedX"] if n != gone],
+                  reassignedY=[n for n in hist["reassignedY"] if n != gone])
+        yield from _emit(dict(base, fields=fs[:i] + fs[i + 1:], hist=h2))
+    for k, v in BASE_CFG.items():
         if cfg.get(k) != v:
-            yield dict(case, cfg=dict(cfg, **{k: v}))
+            yield from _emit(dict(base, cfg=dict(cfg, **{k: v})))
+    if cfg.get("base_mode") in ("gen", "user") and cfg.get("split"):
+        yield from _emit(dict(base, cfg=dict(cfg, base_mode="none", split=0)))
+    for k, v in BASE_HIST.items():
+        if hist[k] != v:
+            yield from _emit(dict(base, hist=dict(hist, **{k: v})))
+    for k in ("reassignedX", "reassignedY"):
+        if len(hist[k]) > 1:
+            for n in hist[k]:
+                yield from _emit(dict(base, hist=dict(hist, **{k: [m for m in hist[k] if m != n]})))
     for i, f in enumerate(fs):
-        for k, v in (("cmp", "unset"), ("eq", "unset"), ("sameObj", False), ("raw", "T"), ("keyed", "T")):
-            if f[k] != v:
-                g = dict(f, **{k: v})
-                if g["cmp"] != "unset" and g["eq"] != "unset":
-                    continue
-                yield dict(case, fields=fs[:i] + [g] + fs[i + 1:])
+        for k, v in (("cmp", "unset"), ("eq", "unset"), ("sameObj", False), ("raw", "T"), ("keyed", "T"),
+                     ("hash", "unset"), ("hashDiffers", False), ("neRaw", "T"), ("neKeyed", "T")):
+            if f.get(k) != v:
+                yield from _emit(dict(base, fields=fs[:i] + [dict(f, **{k: v})] + fs[i + 1:]))
 
 
 def neighbours(case, rng):
+    base = _strip(case)
     for rhs in RHS:
         for _ in range(3):
-            yield dict(case, rhs=rhs, cfg=_rand_cfg(rng))
+            cfg = _rand_cfg(rng)
+            c = dict(base, rhs=rhs, cfg=cfg, hist=_rand_hist(rng, cfg, base["fields"], rhs))
+            yield from _emit(c)
+        yield from _emit(dict(base, rhs=rhs, hist=dict(BASE_HIST)))
     yield from shrink(case)
 
-LEVEL_TEXT = ("Lean theorems over arbitrary field lists (C03_eq_iff, C03_ne_negation, C03_other_class_notimpl, "
-              "C03_nonparticipating_irrelevant, C03_short_circuit, C03_uses_eq_not_identity, C03_model_meets_spec) about an "
-              "executable model of _make_eq_script/__ne__/_determine_attrib_eq_order; the model is tied to /repo by a "
-              "differential correspondence over scripted comparison outcomes x operand kinds x class configurations "
-              "(api, slots, frozen, class-level eq/order/cmp, inheritance split). CPython's ==/!= dispatch is modelled and observed, not proved.")
+
+LEVEL_TEXT = ("Lean theorems over arbitrary field lists, arbitrary ancestor chains and arbitrary hashing histories "
+              "(C03_eq_iff, C03_ne_negation, C03_other_class_notimpl, C03_other_class_identity, C03_nonparticipating_irrelevant, "
+              "C03_history_irrelevant, C03_short_circuit, C03_uses_eq_not_identity, lookupEq_gen/lookupNe_gen (the generated "
+              "pair shadows every inherited or hand-written __eq__/__ne__), C03_model_meets_spec) about an executable model of "
+              "_make_eq_script/__ne__/add_eq/_determine_attrib_eq_order and of the decision whether equality is generated; the "
+              "model is tied to /repo by a differential correspondence over scripted ==/!=/hash outcomes x operand kinds x class "
+              "facts (hand-written methods in the class body, builtin / mixin / attrs ancestors with their own __eq__/__ne__, "
+              "subclass and foreign operands with or without methods) x hashing histories (cache_hash, hash() before the "
+              "comparison, fields re-assigned after hashing) x class configurations (api incl. make_class, slots, frozen, "
+              "class-level eq/order/cmp, inheritance split). CPython's MRO lookup, object.__ne__ and ==/!= dispatch are "
+              "modelled and observed, not proved; the history is varied by the harness only (model and spec ignore it).")
